@@ -19,7 +19,7 @@
       previous option record o (so the statements compose in any order):
       ENVID (non-empty printable ASCII), AUTH (7-bit mailboxes the server's
       parser accepts whole; the empty string as AUTH=<>), RET, SMTPUTF8,
-      REQUIRETLS, BODY=8BITMIME, SIZE (every n < 2^63 within the server's
+      REQUIRETLS, BODY (7BIT, 8BITMIME, BINARYMIME), SIZE (every n < 2^63 within the server's
       limit), ORCPT rfc822 / utf-8 in BOTH forms, NOTIFY (the sixteen sets
       checkNotifySet accepts - C14_notify_sets_exact), RRVS (C14_rrvs on top
       of C14_rfc3339_roundtrip: every instant whose local date is in the years
@@ -36,10 +36,15 @@
       below) or the null sender, and ALL option records in mail_dom /
       rcpt_dom: the client returns no local error, the line it writes
       (C14_client_writes_mail, C14_client_writes_rcpt) is parsed by the server into ONE backend call
-      EMail / ERcpt carrying the same address and seen_mail o / seen_rcpt o:
-      every field as given, except that
-        - Body arrives as "8BITMIME" whatever was given (known finding F14,
-          C14_body_refuted),
+      EMail / ERcpt carrying the same address and seen_mail ext o / seen_rcpt o:
+      every field as given, MailOptions.Body included (seen_mail_id:
+      seen_mail ext o = o whenever Body is set; C14_body: each of 7BIT /
+      8BITMIME / BINARYMIME x EVERY server configuration - a server without
+      EnableBINARYMIME does not offer it and the client refuses Body =
+      BINARYMIME locally; C14_binarymime_data_refused: what DATA does after
+      it), except that
+        - an unset Body arrives as "8BITMIME" when the server offers 8BITMIME
+          (the documented default of Client.Mail; seen_body),
         - OriginalRecipientType travels only with a non-empty
           OriginalRecipient, the zero RequireRecipientValidSince is "absent",
           and nanoseconds are not transmitted.
@@ -47,7 +52,6 @@
       oracle accepts.
 
    EXCLUDED from the domain, each with a computed witness of what happens:
-     F14  MailOptions.Body (C14_body_refuted).
      F25  addresses that are not CheckTrip.addr_simple - SP / HT / '<' / '>'
           inside, leading DQUOTE or '@', empty local part or domain - inject
           parameters (C14_address_injection_refuted).
@@ -142,10 +146,18 @@ Theorem C14_requiretls cfg o bm :
 Proof. exact (C14Param.C14_requiretls cfg o bm). Qed.
 Print Assumptions C14_requiretls.
 
-Theorem C14_body_8bitmime cfg o bm :
-  mail_param cfg (bs "BODY") (bs "8BITMIME") o bm = inl (set_body o (bs "8BITMIME"), bm).
-Proof. exact (C14Param.C14_body_8bitmime cfg o bm). Qed.
-Print Assumptions C14_body_8bitmime.
+Theorem C14_body_param cfg v o bm :
+  body_value v -> (v = bs "BINARYMIME" -> cf_binarymime cfg = true) ->
+  mail_param cfg (bs "BODY") v o bm = inl (set_body o v, bm || is_binarymime v).
+Proof. exact (C14Param.C14_body_param cfg v o bm). Qed.
+Print Assumptions C14_body_param.
+
+Theorem C14_body_binarymime_disabled cfg o bm :
+  cf_binarymime cfg = false ->
+  mail_param cfg (bs "BODY") (bs "BINARYMIME") o bm
+  = inr (504, (5, 5, 4), bs "BINARYMIME is not implemented")%Z.
+Proof. exact (C14Param.C14_body_binarymime_disabled cfg o bm). Qed.
+Print Assumptions C14_body_binarymime_disabled.
 
 Theorem C14_size cfg n o bm :
   (n < 2 ^ 63)%N ->
@@ -203,7 +215,7 @@ Print Assumptions C14_rrvs.
 
 Theorem C14_mail_trip cfg ext c from opts :
   let o := match opts with Some o => o | None => mo_zero end in
-  let ps := mail_toks o in
+  let ps := mail_toks ext o in
   (from = [] \/ addr_ok from = true) ->
   mail_dom cfg o -> mail_srv cfg o -> mail_ext ext o -> mail_state_ok c ->
   Client.mail_params ext opts = inl ps
@@ -211,9 +223,38 @@ Theorem C14_mail_trip cfg ext c from opts :
        parse_cmd (Client.mail_line from ps) = Some (bs "MAIL", arg)
        /\ exists c' w,
             handle cfg c (bs "MAIL") arg
-            = (c', [EMail from (seen_mail o) (fst (pop_mail (upd_binarymime c false))); w]).
+            = (c', [EMail from (seen_mail ext o) (fst (pop_mail c)); w])
+            /\ c_binarymime c' = is_binarymime (mo_body o).
 Proof. exact (C14Proofs.C14_mail_trip cfg ext c from opts). Qed.
 Print Assumptions C14_mail_trip.
+
+(* the options arrive unchanged, Body included, whenever Body is set *)
+Theorem C14_seen_mail_id ext o : mo_body o <> [] -> seen_mail ext o = o.
+Proof. exact (C14Proofs.seen_mail_id ext o). Qed.
+Print Assumptions C14_seen_mail_id.
+
+(* MailOptions.Body: every value x every server configuration *)
+Theorem C14_body cfg ext c from b :
+  body_value b ->
+  (from = [] \/ addr_ok from = true) -> mail_state_ok c ->
+  (forall k, Client.has_ext ext k = true <-> In k (map ClientProofs.ext_key (caps cfg c))) ->
+  let o := set_body mo_zero b in
+  if is_binarymime b && negb (cf_binarymime cfg)
+  then Client.mail_params ext (Some o) = inr Client.err_binarymime
+  else exists ps arg c' w,
+         Client.mail_params ext (Some o) = inl ps
+         /\ parse_cmd (Client.mail_line from ps) = Some (bs "MAIL", arg)
+         /\ handle cfg c (bs "MAIL") arg = (c', [EMail from o (fst (pop_mail c)); w])
+         /\ c_binarymime c' = is_binarymime b.
+Proof. exact (C14Proofs.C14_body cfg ext c from b). Qed.
+Print Assumptions C14_body.
+
+Theorem C14_binarymime_data_refused cfg c :
+  c_binarymime c = true -> c_bdat c = None ->
+  handle cfg c (bs "DATA") []
+  = (c, [reply 502 (5, 5, 1)%Z (bs "DATA not allowed for BINARYMIME messages")]).
+Proof. exact (C14Proofs.C14_binarymime_data_refused cfg c). Qed.
+Print Assumptions C14_binarymime_data_refused.
 
 Theorem C14_rcpt_trip cfg ext c to opts :
   let o := match opts with Some o => o | None => ro_zero end in
@@ -274,14 +315,14 @@ Theorem C14_caps_keys cfg c :
   /\ (c_tls c = true -> cf_requiretls cfg = true -> In (bs "REQUIRETLS") ks)
   /\ (cf_dsn cfg = true -> In (bs "DSN") ks)
   /\ (cf_rrvs cfg = true -> In (bs "RRVS") ks)
-  /\ (auth_allowed cfg c = true -> (exists m ms, cf_auth cfg = Some (m :: ms)) -> In (bs "AUTH") ks).
+  /\ (auth_allowed cfg c = true -> (exists m ms, cf_auth cfg = Some (m :: ms)) -> In (bs "AUTH") ks)
+  /\ (In (bs "BINARYMIME") ks <-> cf_binarymime cfg = true).
 Proof. exact (C14Proofs.C14_caps_keys cfg c). Qed.
 Print Assumptions C14_caps_keys.
 
-Theorem C14_oracle_mail o :
-  CheckTrip.mo_matches o (seen_mail o) = true
-  /\ (mo_body o = [] \/ mo_body o = bs "8BITMIME" -> CheckTrip.body_matches o (seen_mail o) = true).
-Proof. exact (C14Proofs.C14_oracle_mail o). Qed.
+Theorem C14_oracle_mail ext o :
+  CheckTrip.mo_matches o (seen_mail ext o) = true.
+Proof. exact (C14Proofs.C14_oracle_mail ext o). Qed.
 Print Assumptions C14_oracle_mail.
 
 Theorem C14_oracle_rcpt o :
@@ -291,13 +332,6 @@ Proof. exact (C14Proofs.C14_oracle_rcpt o). Qed.
 Print Assumptions C14_oracle_rcpt.
 
 (* ---------- outside the domain (computed in the model composition) ---------- *)
-
-Theorem C14_body_refuted :
-  option_map mails (trip_mail cfg_all ext_all c_ready (bs "a@b")
-                      (Some (mkMO (bs "BINARYMIME") 0 false false [] [] None)))
-  = Some [(bs "a@b", mkMO (bs "8BITMIME") 0 false false [] [] None)].
-Proof. exact C14Proofs.C14_body_refuted. Qed.
-Print Assumptions C14_body_refuted.
 
 Theorem C14_address_injection_refuted :
   CheckTrip.addr_simple (bs "a@b> AUTH=<") = false
@@ -354,8 +388,36 @@ Example C14_mail_trip_witness :
   addr_ok from_ex = true /\ mail_dom cfg_all mo_ex /\ mail_srv cfg_all mo_ex
   /\ mail_ext ext_all mo_ex /\ mail_state_ok c_ready
   /\ option_map mails (trip_mail cfg_all ext_all c_ready from_ex (Some mo_ex))
-     = Some [(from_ex, seen_mail mo_ex)].
+     = Some [(from_ex, seen_mail ext_all mo_ex)]
+  /\ (let o := set_body mo_ex (bs "BINARYMIME") in
+      mail_dom cfg_all o /\ mail_srv cfg_all o /\ mail_ext ext_all o /\ seen_mail ext_all o = o
+      /\ option_map mails (trip_mail cfg_all ext_all c_ready from_ex (Some o)) = Some [(from_ex, o)]).
 Proof. exact C14Proofs.C14_mail_trip_ex. Qed.
+
+(* non-vacuity of C14_body: its hypothesis on ext holds for the maps parsed from
+   the EHLO replies of a server with and one without BINARYMIME, and the
+   computed composition gives what it says for every value *)
+Example C14_body_ext_witness :
+  (forall k, Client.has_ext ext_all k = true
+             <-> In k (map ClientProofs.ext_key (caps cfg_all c_ready)))
+  /\ (forall k, Client.has_ext ext_nobin k = true
+                <-> In k (map ClientProofs.ext_key (caps cfg_nobin c_ready))).
+Proof. exact C14Proofs.C14_body_ext_ex. Qed.
+
+Example C14_body_witness :
+  let body b := mkMO b 0 false false [] [] None in
+  let trip cfg ext b := option_map mails (trip_mail cfg ext c_ready (bs "a@b") (Some (body b))) in
+  trip cfg_all ext_all (bs "7BIT") = Some [(bs "a@b", body (bs "7BIT"))]
+  /\ trip cfg_all ext_all (bs "8BITMIME") = Some [(bs "a@b", body (bs "8BITMIME"))]
+  /\ trip cfg_all ext_all (bs "BINARYMIME") = Some [(bs "a@b", body (bs "BINARYMIME"))]
+  /\ trip cfg_nobin ext_nobin (bs "7BIT") = Some [(bs "a@b", body (bs "7BIT"))]
+  /\ trip cfg_nobin ext_nobin (bs "8BITMIME") = Some [(bs "a@b", body (bs "8BITMIME"))]
+  /\ Client.mail_params ext_nobin (Some (body (bs "BINARYMIME"))) = inr Client.err_binarymime
+  /\ Client.mail_params ext_all (Some (body (bs "binarymime"))) = inr Client.err_body
+  /\ trip cfg_all ext_all [] = Some [(bs "a@b", body (bs "8BITMIME"))]
+  /\ option_map mails (trip_mail cfg_all ext_all c_ready (bs "a@b") None)
+     = Some [(bs "a@b", body (bs "8BITMIME"))].
+Proof. exact C14Proofs.C14_body_ex. Qed.
 
 Example C14_rcpt_trip_witness :
   addr_ok from_ex = true /\ rcpt_dom ext_all ro_ex /\ rcpt_srv cfg_all ro_ex
